@@ -1021,6 +1021,7 @@ def wallet_spec_strategy(ctx, max_ops=6):
         'private': st.sampled_from([[True, False, False], [True, True, False], [True, True, True]]),
         'import_secret': secret_strategy().map(lambda d: '%x' % d),
         'from_account': st.sampled_from([False, False, True]),
+        'watch_import': st.sampled_from([None, None, 'address', 'xpub']),
         'history': st.lists(st.sampled_from(WALLET_OPS + ['get_key', 'utxos_update', 'send_own']), min_size=2,
                             max_size=max_ops),
         'rng': st.integers(0, 0xffffffff),
@@ -1350,6 +1351,52 @@ def _check_wallet_inner(ctx, case):
             except Exception as e:
                 ctx.refusal('watch.create:%s' % type(e).__name__)
                 w2 = None
+        # watch-only wallets (made from an address / from an account xpub) into which an unrelated private key is
+        # imported afterwards: the wallet as a whole stays without a private main key, the imported row is private
+        extra = []
+        wi = spec.get('watch_import')
+        if wi:
+            from ref import address as raddr, bip32 as rbip32, ec as rec
+            net, wt = spec['network'], spec['witness_type']
+            w3 = None
+            try:
+                seed3 = hashlib.sha256(b'c16 watch import' + bytes.fromhex(spec['seeds'][0])).digest()
+                m3 = rbip32.master(seed3)
+                d_imp = int(spec['import_secret'], 16)
+                if wi == 'address':
+                    kind = {'legacy': 'p2pkh', 'p2sh-segwit': 'p2sh_p2wpkh', 'segwit': 'p2wpkh'}.get(wt, 'p2pkh')
+                    watch_addr = raddr.key_address(rec.ser_compressed(rec.pubkey(m3.secret)), net, kind)
+                    w3 = wl.Wallet.create('c16watch3', keys=watch_addr, network=net, db_uri='sqlite:///' +
+                                          os.path.join(d, 'w3.sqlite'))
+                    imp = raddr.wif(d_imp, net, True)
+                    extra.append(rbip32.XKey(d_imp, rec.pubkey(d_imp), bytes(32)))
+                else:
+                    acc = rbip32.derive(m3, _pm_path(net, wt, False))
+                    w3 = wl.Wallet.create('c16watch3', keys=acc.xkey(_xver(net, False, wt, False), private=False),
+                                          network=net, witness_type=wt, db_uri='sqlite:///' + os.path.join(d, 'w3.sqlite'))
+                    child = rbip32.ckd_priv(rbip32.master(hashlib.sha256(seed3).digest()), d_imp % 1000)
+                    imp = child.xkey(_xver(net, True, wt, False), private=True)
+                    extra.append(child)
+                w3.import_key(imp)
+                if not [k for k in w3.keys() if k.is_private]:
+                    ctx.refusal('watch_import.%s:not stored as private' % wi)
+                else:
+                    ctx.klass('wallet.watch_import.' + wi)
+                    add('watch_import.as_dict', lambda: w3.as_dict())
+                    add('watch_import.as_json', lambda: w3.as_json())
+                    add('watch_import.keys_as_dict', lambda: w3.keys(as_dict=True))
+                    add('watch_import.keys_addresses_as_dict', lambda: w3.keys_addresses(as_dict=True))
+                    add('watch_import.repr', lambda: repr(w3))
+                    add('watch_import.info', lambda: _capture(lambda: w3.info(detail=1)))
+                    add('watch_import.wif_default', lambda: w3.wif())
+                    _close_wallet(w3)
+                    w3 = wl.Wallet('c16watch3', db_uri='sqlite:///' + os.path.join(d, 'w3.sqlite'))
+                    add('watch_import.reopened.as_json', lambda: w3.as_json())
+            except Exception as e:
+                ctx.refusal('watch_import.%s:%s' % (wi, type(e).__name__))
+            finally:
+                if w3 is not None:
+                    _close_wallet(w3)
         # a freshly reopened Wallet object hands out its public master before anything else has touched its keys
         # (WalletKey objects loaded from the database carry no key object yet)
         try:
@@ -1368,6 +1415,8 @@ def _check_wallet_inner(ctx, case):
         except Exception as e:
             raise HarnessError('cannot read wallet database independently: %r' % e)
         nsec = _wallet_secrets(spec, rows, secrets)
+        for n3, xk3 in enumerate(extra):
+            secrets.add_xkey(xk3, 'watch_import%d' % n3)
         ctx.klass('wallet.secrets.%s' % ('1' if nsec == 1 else '2-9' if nsec < 10 else '10-19' if nsec < 20 else '20+'))
         hits = []
         _scan_views(ctx, arts, secrets, hits)
